@@ -1529,6 +1529,10 @@ SPECIAL_IMPLS = {
         };
 
         parser.expect_token(context, A2lTokenType::End)?;
+        let text_lines = u32::try_from(parser.get_token_text(token).matches('\n').count());
+        let end_offset = parser
+            .get_line_offset()
+            .saturating_sub(text_lines.unwrap_or(0));
         let ident = parser.get_identifier(context)?;
         if ident != "A2ML" {
             parser.error_or_log(ParserError::IncorrectEndTag {
@@ -1547,18 +1551,21 @@ SPECIAL_IMPLS = {
                 line,
                 uid,
                 start_offset,
-                end_offset: 1,
+                end_offset,
                 item_location: (__a2ml_text_location, ()),
             },
         })
     }
     pub(crate) fn stringify(&self, indent: usize) -> String {
         let mut writer = writer::Writer::new(indent);
-        let text_fixed = self
+        let mut text_fixed = self
             .a2ml_text
             .split("\r\n")
             .collect::<Vec<&str>>()
             .join("\n");
+        if self.__block_info.end_offset == 0 && text_fixed.ends_with(|c: char| c.is_ascii_whitespace() && c != '\r') {
+            text_fixed.push('\n');
+        }
         writer.add_str_raw(&text_fixed, self.__block_info.item_location.0);
         writer.finish()
     }
